@@ -45,6 +45,7 @@ OP_OWNERS = {
 EXC_OWNERS = {
     "add_page": ("C01", "C02", "C06", "C19"),
     "add_pages": ("C01", "C02", "C06", "C19"),
+    "add_pages_seq": ("C01", "C02", "C06", "C19"),
     "add_links": ("C01", "C02", "C03", "C06", "C19"),
     "batch": ("C01", "C02", "C03", "C06", "C19"),
     "create_we": ("C04", "C12", "C13"),
@@ -106,7 +107,8 @@ class Ctx(object):
 
             self.tmpdir = tempfile.mkdtemp(prefix="traphverif-")
             folder = self.tmpdir + "/idx"
-        self.sut = O.Sut(self.backend, self.default, self.rules, folder=folder)
+        O.ENCODING[0] = cfg.get("encoding", "utf-8")
+        self.sut = O.Sut(self.backend, self.default, self.rules, folder=folder, encoding=cfg.get("encoding", "utf-8"))
         self.disk = self.sut.disk
         self.obs_rng = random.Random(case.get("obs_seed", 0))
         self.op_index = -1
@@ -215,6 +217,21 @@ def run_sequential(case, sweep, prop=None, after_op=None, final=None, pre_op=Non
     ctx = Ctx(case, prop)
     res = ctx.res
     every = case["config"].get("sweep_every", 1)
+    # yield cadence: the blocking wrappers must give the same answers whatever the rhythm at which
+    # the underlying iterator requests yield (stock frequencies, or every n-th loop iteration)
+    ycad = case["config"].get("yield_every")
+    saved_yield = None
+    if ycad:
+        from traph.traph_iterator_state import TraphIteratorState
+
+        saved_yield = TraphIteratorState.should_yield
+
+        def _should_yield(self, yield_frequency=1000, _n=ycad):
+            self.n_iterations += 1
+            return not self.n_iterations % _n
+
+        TraphIteratorState.should_yield = _should_yield
+        res.stats["runs_with_fuzzed_yield_cadence"] += 1
     try:
         try:
             n = len(case["ops"])
@@ -249,5 +266,9 @@ def run_sequential(case, sweep, prop=None, after_op=None, final=None, pre_op=Non
         res.probes.update(ctx.model.probe)
         res.digest = ctx.h.hexdigest()
     finally:
+        if saved_yield is not None:
+            from traph.traph_iterator_state import TraphIteratorState
+
+            TraphIteratorState.should_yield = saved_yield
         ctx.cleanup()
     return res
